@@ -70,6 +70,12 @@ class Builder:
         a.fun = F
         return a
 
+    def obj(self, qualname=None, **fields):
+        """instance of a repository class (or an anonymous record) with the given fields"""
+        from .core import Obj
+        cls = self.I.repo.locate_class(qualname, self.I) if qualname else None
+        return Obj(cls, fields)
+
     # -- quantifiers --------------------------------------------------------
     def forall(self, lo, hi, body, name='i'):
         """forall lo <= i < hi . body(i)"""
@@ -277,8 +283,17 @@ def run_case(case, repo=None, registry=None, opts=None):
                 kw = dict(params)
                 if old is not None:
                     kw['old'] = old
+                hints = []
                 for nm, g in _pairs(case, 'ensures', cp, outcome[1], **kw):
-                    ctx.oblige('%s.ensures.%s' % (case.case, nm), g, kind='post')
+                    if nm.startswith('hint:'):
+                        # proof step: tried first, used as a hypothesis by the later clauses of
+                        # this path only if discharged; never reported as a violation
+                        o = ctx.oblige('%s.%s' % (case.case, nm), g, kind='hint')
+                        o.hints = list(hints)
+                        hints.append(o)
+                    else:
+                        o = ctx.oblige('%s.ensures.%s' % (case.case, nm), g, kind='post')
+                        o.hints = list(hints)
                 res.covers.append((tag, 'return', list(ctx.pc)))
             else:
                 res.raises += 1
